@@ -297,6 +297,9 @@ func (s *Server) deliver(rsps jmessages, ch sender, elapsed time.Duration) error
 			s.cancelLocked(string(rsp.ID))
 		}
 	}
+	if ch == nil {
+		return ErrConnClosed // the server stopped before this batch was dequeued
+	}
 
 	nw, err := encode(ch, rsps)
 	bytesWrittenCount.Add(int64(nw))
